@@ -179,7 +179,7 @@ ROUND8 = {
 ROUND9 = {
     "C03": " Round 9: the safe interface's derivative wherever its guard is idle.",
     "C06": " Round 9: exhaustion family (every order of repeated reactants, odd counts, three simulators).",
-    "C12": " Round 9: the delay family 'none' with a delayed part, next to the three real families.",
+    "C12": " Round 9: the delay family 'none' with a delayed part, next to the three real families; theorems split_join / delay_list_roundtrip (comma-separated delayed reactants / products survive the annotation) and the delay annotations of every written reaction decoded by the Lean codec.",
     "C13": " Round 9: model of the text between document and importer on the power fragment (Model/PowText.lean: libsbml's printer, the right-associative reader) with theorems read_print_readBack (what is read back, for every tree), readBack_eq_iff (as written iff no power has a power as its base), pow_of_pow_misread (the known finding for every instance); printer against libsbml.formulaToL3String and reader against the imported rate on every tree shape up to three powers.",
     "C14": " Round 9: delayed reactions of every family in both exports.",
     "C17": " Round 9: lineages linked in one direction; a single daughter cell copied on its own.",
